@@ -40,6 +40,8 @@ def plan(tier):
 
 def gen_points(rng):
     n = rng.randint(1, 6)
+    if rng.random() < 0.15:
+        n = rng.randint(17, 45)          # long lists: denser than the table in places (several points per table gap)
     pts = []
     used = set()
     while len(pts) < n:
